@@ -136,6 +136,7 @@ def parse_row(text, internal_table=False):
                 acts.append(int(mm.group(1)))
     return {
         "src": d["src"], "ev": d["ev"], "guard": parse_guard(d["guard"]) if d["guard"] and d["guard"].strip() else None,
+        "guard_text": d["guard"].strip() if d["guard"] and d["guard"].strip() else None,
         "acts": acts, "tgt": d["tgt"], "text": text.strip(),
     }
 
@@ -276,7 +277,7 @@ def normalize(spec):
 
     def add_row(mi, table, raw, state_local=None):
         r = parse_row(raw, internal_table=(table != 0))
-        R = {"machine": mi, "table": table, "text": r["text"], "guard": r["guard"], "actions": r["acts"],
+        R = {"machine": mi, "table": table, "text": r["text"], "guard": r["guard"], "guard_text": r["guard_text"], "actions": r["acts"],
              "src": -1, "src_owner": -1, "tkind": TK_NONE, "tgts": [], "tgt_owner": -1, "index": -1}
         if r["ev"] is None:
             R["trigger"] = TRIG_COMPLETION
